@@ -374,6 +374,15 @@ class Slave(logging_utils.LoggableMixin):
 
         raise asyncio.TimeoutError('Timeout waiting for device to come online')
 
+    def _get_exposed_attrs(self) -> Attributes:
+        # Passwords pending provisioning are kept in clear text in cached attributes; never expose them as such
+        attrs = dict(self._cached_attrs)
+        for name, value in attrs.items():
+            if name.endswith('_password'):
+                attrs[name] = 'set' if value else ''
+
+        return attrs
+
     def to_json(self) -> GenericJSONDict:
         provisioning = list(self._provisioning_attrs)
         if self._provisioning_webhooks:
@@ -394,7 +403,7 @@ class Slave(logging_utils.LoggableMixin):
             'last_sync': self._last_sync,
             'online': self._online,
             'provisioning': provisioning,
-            'attrs': self._cached_attrs
+            'attrs': self._get_exposed_attrs()
         }
 
     def prepare_for_save(self) -> GenericJSONDict:
@@ -1442,7 +1451,7 @@ class Slave(logging_utils.LoggableMixin):
                 if path == '/device':
                     # In theory, cached attributes should always be available, while device is online
                     if self._cached_attrs:
-                        return True, self._cached_attrs
+                        return True, self._get_exposed_attrs()
                 elif path == '/webhooks':
                     if self._cached_webhooks:
                         return True, self._cached_webhooks
